@@ -502,3 +502,56 @@ func ruleContinuationDecidedByCheck(c *Ctx, r *Rule) {
 	}
 	r.Ob(n >= 1, "join|continuation-helper", token.NoPos, fmt.Sprintf("%d continuation decisions examined", n))
 }
+
+// ruleJoinLimitIsPrefix: with max_event_size the joined value is the in-order concatenation of the
+// run's lines up to the limit — a prefix. That holds when the decision to append a line depends only
+// on how much has been accumulated: once the limit is reached every later line is dropped. A test
+// that also involves the current line's length skips a long line and still appends later, shorter
+// ones: the result is no longer a prefix of the run.
+func ruleJoinLimitIsPrefix(c *Ctx, r *Rule) {
+	const joinPkg = modulePath + "/plugin/action/join"
+	n := 0
+	for _, a := range c.fieldAccesses(joinPkg, "Plugin", "buff") {
+		if !a.write || a.fn.Name() != "Do" {
+			continue
+		}
+		app, ok := isBuiltinCall(instrOf(stripConv(a.val)), "append")
+		if !ok || len(app.Call.Args) != 2 || !isLoadOfField(stripConv(app.Call.Args[0]), joinPkg, "Plugin", "buff") {
+			continue // the start of a run (append(buff[:0], ...)) is not limited
+		}
+		n++
+		r.Inst(1)
+		bad := ""
+		for _, cl := range c.guards(a.fn)[a.in.Block()] {
+			for _, l := range cl {
+				_, x, y, isCmp := cmpLit(l)
+				if !isCmp {
+					continue
+				}
+				var other ssa.Value
+				if isLoadOfField(stripConv(x), joinPkg, "Plugin", "maxEventSize") {
+					other = y
+				} else if isLoadOfField(stripConv(y), joinPkg, "Plugin", "maxEventSize") {
+					other = x
+				} else {
+					continue
+				}
+				if k, isK := constInt(other); isK && k == 0 {
+					continue // "no limit configured"
+				}
+				f := lin(other)
+				okForm := len(f.t) == 1
+				for key, cnt := range f.t {
+					if !(key.isLen && cnt == 1 && isLoadOfField(stripConv(key.v), joinPkg, "Plugin", "buff")) {
+						okForm = false
+					}
+				}
+				if !okForm {
+					bad = c.linString(f)
+				}
+			}
+		}
+		r.Ob(bad == "", fmt.Sprintf("%s|append#%d|limit-by-accumulated-size", c.fnName(a.fn), n), a.in.Pos(), "a continuation line is appended depending on the accumulated size alone"+ifs(bad != "", "; the limit is compared with "+bad))
+	}
+	r.Ob(n >= 1, "join|limited-append", token.NoPos, fmt.Sprintf("%d limited appends to the join buffer examined", n))
+}
